@@ -29,7 +29,10 @@ RULE = ("matrices: exhaustive 0/1 matrices (quick <= 3x4 and 4x3, thorough <= 3x
         "7) from planted CI / CEI / VI / VEI / partition / 2-partition / forbidden-cycle / uniform generators with "
         "flips, repeated ballots, empty and full approval sets, unapproved alternatives, arbitrary labels in arbitrary "
         "insertion order, 1 or 2 categories; large planted instances 8 <= m, n <= 40 (witness check + planted "
-        "certificate; partition references run at every size); instance_to_ci_matrix compared through "
+        "certificate; partition references run at every size); reorder_sets called directly on the duplicate-free "
+        "families of column sets of such matrices (all families from the exhaustive shapes, ~12 000 structured families "
+        "with 3-14 sets, 3 000 large ones up to 40 sets; list and dict-keys input): contract = sets_check / sets_decide; "
+        "instance_to_ci_matrix compared through "
         "c1p_decide(matrix) == ci_decide(instance). non-trivial = >= 3 columns (alternatives) and a row (ballot) with "
         ">= 2 ones and >= 1 zero")
 EXHAUSTIVE = {
@@ -363,9 +366,16 @@ def _rand_instance(rng, mmax, nmax, big=False):
     return alts, ballots, planted
 
 
+def _rot(k):
+    """the eight recognisers, starting at a varying one (keeps any every-n-th sample of the campaign representative)"""
+    k %= len(DOMAINS)
+    return DOMAINS[k:] + DOMAINS[:k]
+
+
 def generate(tier, seed):
     rng = random.Random(1000003 * seed + 5)
     quick = tier == "quick"
+    rot_rng = random.Random(99)
     out = []
     # ---- (1) matrices -------------------------------------------------------------------------------------
     shapes = [(nr, nc) for nr in range(1, 4) for nc in range(1, 5)] + [(4, 3), (4, 2), (4, 1)]
@@ -476,6 +486,14 @@ def generate(tier, seed):
             nr, nc = rng.randint(3, 8), rng.randint(4, 9)
             rows, hidden = _uniform_matrix(rng, nr, nc), None
         out.append(_rcase(rows, nc, hidden, form=i % 2, gen="fam"))
+    nfb = 3000 if quick else 30000
+    for i in range(nfb):                       # large families: planted certificate + check of the returned order
+        nr, nc = rng.randint(6, 30), rng.randint(10, 40)
+        if i % 2:
+            rows, hidden = _planted_matrix(rng, nr, nc)
+        else:
+            rows, hidden = _deep_matrix(rng, nr, nc, flips=rng.choice([0, 0, 0, 1]))
+        out.append(_rcase(rows, nc, hidden, form=i % 2, gen="fam-big"))
     # ---- (2) instances: exhaustive small ------------------------------------------------------------------
     label_sets = {0: [], 1: [7], 2: [4, 2], 3: [5, 3, 9], 4: [6, 1, 8, 3]}
     for m in range(0, 4):
@@ -483,7 +501,7 @@ def generate(tier, seed):
         subs = list(_subsets(alts))
         for n in range(0, 4):
             for prof in itertools.product(subs, repeat=n):
-                for dom in DOMAINS:
+                for dom in _rot(rot_rng.randrange(8)):
                     out.append(_icase(dom, alts, prof, exh=1, ncat=1 + (len(out) % 2)))
                 out.append(_icase("cimat", alts, prof, exh=1, ncat=1 + (len(out) % 2)))
     if True:
@@ -493,14 +511,14 @@ def generate(tier, seed):
             for prof in (itertools.combinations_with_replacement(subs, n) if quick else itertools.product(subs, repeat=n)):
                 prof = list(prof)
                 rng.shuffle(prof)
-                for dom in DOMAINS:
+                for dom in _rot(rot_rng.randrange(8)):
                     out.append(_icase(dom, alts, prof, exh=1, ncat=1 + (len(out) % 2)))
     # ---- random small (reference runs) --------------------------------------------------------------------
     nri = 1500 if quick else 12000
     mmax = 6 if quick else 7
     for i in range(nri):
         alts, ballots, planted = _rand_instance(rng, mmax, mmax)
-        for dom in DOMAINS:
+        for dom in _rot(rot_rng.randrange(8)):
             tags = {"ncat": 1 + (i % 2)}
             if dom in planted:
                 tags["planted"] = planted[dom]
